@@ -15,7 +15,10 @@ Inductive case :=
 (** verdicts of check_operation_document for one operation document under the two Schema values *)
 | CVerdict (label : str) (ok_sdl ok_json : bool)
 (** writer operations of SchemaTypePrinter::print_document on the two routes *)
-| CAlias (strict : bool) (ops_sdl ops_json : list wop).
+| CAlias (strict : bool) (ops_sdl ops_json : list wop)
+(** the real CLI (`check generate`) on two projects that differ only in the schema file: exit status of each, and
+    whether the schema declaration file each wrote is the one the in-process route produced *)
+| CCli (label : str) (ok_sdl ok_json same_sdl same_json : bool).
 
 (* ------------------------------------------------------------------------------------------ *)
 (** structural equality of documents and JSON trees (ties of the spec-side functions to the harness) *)
@@ -229,6 +232,7 @@ Definition agree (c : case) : bool :=
        && Bool.eqb (model_ok M) guard)
   | CVerdict _ _ _ => true
   | CAlias _ _ _ => true
+  | CCli _ _ _ same_sdl same_json => same_sdl && same_json
   end.
 
 (** the property, read on the implementation's own outputs *)
@@ -243,4 +247,5 @@ Definition holds (c : case) : bool :=
       end
   | CVerdict _ ok_sdl ok_json => Bool.eqb ok_sdl ok_json
   | CAlias strict ops_sdl ops_json => aliases_agree strict (aliases ops_sdl) (aliases ops_json)
+  | CCli _ ok_sdl ok_json _ _ => Bool.eqb ok_sdl ok_json
   end.
